@@ -23,7 +23,8 @@ LEVEL_OPS = {
 }
 STEP_OF = {"**": "pow", "*": "mul", "/": "mul", "+": "add", "-": "add", "==": "cmp", "!=": "cmp", "<=": "cmp",
            ">=": "cmp", "<": "cmp", ">": "cmp", "&&": "and", "||": "or", "!": "not"}
-NUMBERS = ["0", "1", "2", "3", "4", "5", "7", "10", "16", "23", "2.25", ".5", "1e3", "0.1", "3.", "12.5", "1e1", "100"]
+NUMBERS = ["1", "2", "3", "4", "5", "7", "10", "16", "23", "2.25", ".5", "1e3", "0.1", "3.", "12.5", "1e1", "100"]
+SMALL_EXP = ["2", "3", "2", "1", "0", "3", "2", "4", ".5"]
 
 
 # --------------------------------------------------------------------------- generator
@@ -38,12 +39,14 @@ def expr(draw, depth=3, top="or"):
 
     def gen(level, d):
         if level == "prim":
-            kinds = ["num"] * 5
+            kinds = ["num"] * 15 + ["zero"]
             if d > 0:
                 kinds += ["par", "par", "f1", "f1", "f2"]
             k = draw(st.sampled_from(kinds))
             if k == "num":
                 return ["num", draw(st.sampled_from(NUMBERS))]
+            if k == "zero":
+                return ["num", "0"]
             inner_top = draw(st.sampled_from(["add", "add", "add", "or", "cmp"]))
             if k == "par":
                 return ["par", gen(inner_top, d - 1)]
@@ -63,11 +66,22 @@ def expr(draw, depth=3, top="or"):
             return e
         nxt = order[order.index(level) + 1]
         first = gen(nxt, d)
-        weights = {"or": (8, 2, 1), "and": (8, 2, 1), "cmp": (7, 3, 1), "add": (4, 4, 2), "mul": (5, 4, 1), "pow": (7, 2, 1)}[level]
+        weights = {"or": (10, 2, 1), "and": (10, 2, 1), "cmp": (8, 3, 1), "add": (5, 4, 1), "mul": (6, 3, 1), "pow": (8, 2, 1)}[level]
         n = _count(draw, weights)
         if n == 0:
             return first
         rest = [[draw(st.sampled_from(LEVEL_OPS[level])), gen(nxt, d)] for _ in range(n)]
+        if level == "mul":
+            for r in rest:       # a literal zero divisor only produces discarded cases
+                if r[0] == "/" and r[1] == ["num", "0"]:
+                    r[1] = ["num", "4"]
+        if level == "pow":
+            # keep exponents small so that most cases stay inside the float range (generator soundness, not the oracle)
+            for r in rest:
+                x = r[1]
+                tgt = x[2] if x[0] == "una" else x
+                if tgt[0] == "num":
+                    tgt[1] = draw(st.sampled_from(SMALL_EXP))
         return ["chain", level, first, rest]
 
     return gen(top, depth)
